@@ -6,6 +6,7 @@ package keeper
 // ValidateSubDistributors, and the two registered invariants from invariants.go run on the post-state.
 
 import (
+	"cosmossdk.io/math"
 	"github.com/chain4energy/c4e-chain/x/cfedistributor/types"
 	sdk "github.com/cosmos/cosmos-sdk/types"
 )
@@ -34,16 +35,13 @@ func verifBeginBlock(ctx sdk.Context, k Keeper) {
 // verifC03Config: a validation-accepted configuration of 1 or 2 sub-distributors (sizes by tier).
 func verifC03Config() types.Params {
 	var subs []types.SubDistributor
-	nsub := verif_choice("nsub", 2) + 1
+	nsub := 1
+	if verif_tier() > 0 {
+		nsub = verif_choice("nsub", 2) + 1
+	}
 	for i := 0; i < nsub; i++ {
-		nsrc := 1
-		withShare := false
-		if nsub == 1 || verif_tier() > 0 {
-			nsrc = verif_choice("nsrc"+string(rune('1'+i)), 2) + 1
-			withShare = verif_choice("withShare"+string(rune('1'+i)), 2) == 1
-		} else if i == 0 {
-			withShare = verif_choice("withShare1", 2) == 1
-		}
+		nsrc := verif_choice("nsrc"+string(rune('1'+i)), 2) + 1
+		withShare := verif_choice("withShare"+string(rune('1'+i)), 2) == 1
 		sd := verifSub(i, nsrc, withShare)
 		verif_assume(sd.Validate() == nil)
 		subs = append(subs, sd)
@@ -53,16 +51,43 @@ func verifC03Config() types.Params {
 	return p
 }
 
+// A quantity is either exactly zero or an arbitrary strictly positive value: the zero case is split off by construction
+// (a concrete fork) instead of being rediscovered by the solver at every IsZero test inside the Coins / DecCoins code.
+func verifPosOrZeroInt(name string) math.Int {
+	if verif_tier() > 0 && verif_choice("zero_"+name, 2) == 1 {
+		return sdk.ZeroInt()
+	}
+	return verif_int_range(name, "1", dMaxAmt)
+}
+
+func verifPosOrZeroDec(name string) sdk.Dec {
+	if verif_tier() > 0 && verif_choice("zero_"+name, 2) == 1 {
+		return sdk.ZeroDec()
+	}
+	return verif_dec_range(name, "1", "2e36")
+}
+
 // verifC03Books installs an arbitrary pre-state satisfying Inv_d for one denom: for the burn account and for every destination
 // of the configuration an (optional) state with non-negative remains, an integral sum, and a main-account balance
 // equal to that sum plus what arrived since the last block; every non-main source holds an arbitrary inflow.
 func verifC03Books(k Keeper, ctx sdk.Context, p types.Params) {
 	var states []types.State
 	seen := map[string]bool{}
-	// either no destination has a state yet (first block) or all of them have one (with any remains incl. zero)
-	withStates := verif_choice("withStates", 2) == 1
+	// destinations either have no state yet (first block), a state with empty remains (after an exact payout),
+	// or a state with arbitrary positive remains
+	// (quick tier: generic position only — positive remains and inflows; the degenerate modes run in the thorough tier)
+	mode := 2
+	if verif_tier() > 0 {
+		mode = verif_choice("stateMode", 3)
+	}
+	rem := func(tag string) sdk.DecCoins {
+		if mode == 1 {
+			return sdk.DecCoins{}
+		}
+		return verifDecCoins(dDenom, verif_dec_range("rem_"+tag, "1", "2e36"))
+	}
 	add := func(a types.Account, tag string) {
-		if a.Type == types.Main {
+		if a.Type == types.Main || mode == 0 {
 			return
 		}
 		key := a.GetAccountKey()
@@ -70,11 +95,8 @@ func verifC03Books(k Keeper, ctx sdk.Context, p types.Params) {
 			return
 		}
 		seen[key] = true
-		if !withStates {
-			return
-		}
 		acc := a
-		states = append(states, types.State{Account: &acc, Remains: verifDecCoins(dDenom, verif_dec_range("rem_"+tag, "0", "1e48"))})
+		states = append(states, types.State{Account: &acc, Remains: rem(tag)})
 	}
 	for i, sd := range p.SubDistributors {
 		id := string(rune('1' + i))
@@ -83,15 +105,15 @@ func verifC03Books(k Keeper, ctx sdk.Context, p types.Params) {
 			add(sh.Destination, "s"+id)
 		}
 	}
-	if withStates {
-		states = append(states, types.State{Account: &types.Account{}, Burn: true, Remains: verifDecCoins(dDenom, verif_dec_range("rem_burn", "0", "1e48"))})
+	if mode != 0 {
+		states = append(states, types.State{Account: &types.Account{}, Burn: true, Remains: rem("burn")})
 	}
 	sum := verifRemainsSum(states, dDenom)
 	verif_assume(sum.Equal(sum.TruncateDec())) // sum of remains is a whole number of coins (holds after every block)
 	for _, st := range states {
 		k.SetState(ctx, st)
 	}
-	W.bank.fund(verifModuleAddr(dMain), dDenom, sum.TruncateInt().Add(verif_int_range("mainInflow", "0", dMaxAmt)))
+	W.bank.fund(verifModuleAddr(dMain), dDenom, sum.TruncateInt().Add(verifPosOrZeroInt("mainInflow")))
 	funded := map[string]bool{}
 	for i, sd := range p.SubDistributors {
 		for j, src := range sd.Sources {
@@ -104,7 +126,7 @@ func verifC03Books(k Keeper, ctx sdk.Context, p types.Params) {
 				continue
 			}
 			funded[key] = true
-			W.bank.fund(addr, dDenom, verif_int_range("inflow"+string(rune('1'+i))+string(rune('a'+j)), "0", dMaxAmt))
+			W.bank.fund(addr, dDenom, verifPosOrZeroInt("inflow"+string(rune('1'+i))+string(rune('a'+j))))
 		}
 	}
 }
@@ -150,4 +172,21 @@ func Verif_C03_zz_count_configs() {
 	verifDistKeeper()
 	verifC03Config()
 	verif_reach("config")
+}
+
+// calibration only: one fixed configuration
+func Verif_C03_zz_one_config() {
+	k := verifDistKeeper()
+	ctx := verifCtx(verif_time_range("now", 1600000000, 1900000000))
+	a := types.Account{Type: types.Main}
+	sd := types.SubDistributor{Name: "sd1", Sources: []*types.Account{&a}, Destinations: types.Destinations{
+		PrimaryShare: types.Account{Type: types.ModuleAccount, Id: dGBC}, BurnShare: verif_dec_range("burn1", "0", "999999999999999999"),
+		Shares: []*types.DestinationShare{{Name: "share1", Share: verif_dec_range("share1", "0", "999999999999999999"), Destination: types.Account{Type: types.BaseAccount, Id: dBase2}}}}}
+	p := types.Params{SubDistributors: []types.SubDistributor{sd}}
+	verif_assume(p.Validate() == nil)
+	_ = k.SetParams(ctx, p)
+	verifC03Books(k, ctx, p)
+	verifBeginBlock(ctx, k)
+	verifC03Post(k, ctx)
+	verif_reach("one config")
 }
